@@ -88,6 +88,13 @@ fn check_inner(cfg: &Cfg, cap: usize, ops: &[String], outs: &[String]) -> Vec<Vi
             continue;
         }
         let line = k + 1;
+        // C02: `trks; <non-consuming batch read>; trks` - the tracker tuples of every WAL file must be unchanged
+        if t[0] == "trks" && k >= 2 && ops[k - 2] == "trks" {
+            let m: Vec<&str> = ops[k - 1].split_whitespace().collect();
+            if m.first().copied() == Some("bread") && (m[3] == "0" || m[4] != "-") && outs[k - 2] != *out && outs[k - 1].starts_with('[') {
+                v.push(Violation { prop: "C02", line, msg: format!("`{}` changed the reclamation bookkeeping: {} -> {}", ops[k - 1], outs[k - 2], out) });
+            }
+        }
         if out == "panic" {
             let prop = if t[0] == "open" { "C06" } else { "ANY" };
             v.push(Violation { prop, line, msg: format!("`{}` panicked", op) });
